@@ -490,6 +490,193 @@ def r19_6(ctx):
         ctx.undecided(R, 'pool-size', 'the loop that spawns the workers is not a plain `for _ in 0..threads`', fn=f)
 
 
+def r19_7(ctx):
+    """conservation in the pipeline: every item a loop of the merge pipeline takes from its source (rows, batches, per-worker result
+    lists, union entries) is handed on - to a push / insert / send / merger call or a store.  An iteration that takes an item and lets
+    it fall on the floor loses keys without any error."""
+    R = ctx.rule('R19.7', 'pipeline conservation: every item taken from a source inside the merge pipeline is handed on in the same iteration', floor=8)
+    b = ctx.bin
+    from rules import cli
+    scope = [f for f in b.fn_list if not f.from_expansion and (f.path.startswith(('merge::', '<merge::')) or f.path.startswith(('cmd::map::Args::run', 'cmd::set::Args::run')))]
+    n = 0
+    for f in scope:
+        ok, bad, k = cli.loop_items(f)
+        n += k
+        for h in sorted(bad):
+            ctx.violation(R, 'dropped:%s' % f.path, 'an iteration of a pipeline loop takes an item from its source and hands it to nothing (no push / insert / send / merge of it on that path): the keys it carries vanish silently', fn=f, at=f.line_of(h))
+        for h in sorted(ok - bad):
+            ctx.ok(R, 'loop:%s@%s' % (f.path, h), None, fn=f)
+    ctx.count('pipeline_iterations', n)
+
+
+def r19_8(ctx):
+    """the batcher hands over its last, partially filled batch when the input ends"""
+    R = ctx.rule('R19.8', 'the last partial batch is sent when the input is exhausted', floor=1)
+    b = ctx.bin
+    cl = [f for f in b.fn_list if f.kind == 'Closure' and f.path.startswith('merge::batcher::')]
+    if not cl:
+        ctx.missing(R, 'anchor:batcher', 'batching thread not found')
+        return
+    f = cl[0]
+    n = 0
+    for p in explore(f, max_visits=1, havoc=True, limit=3000):
+        if p.end != 'return':
+            continue
+        ends = [d for d in p.cdecisions() if d[2][0] == 'discr' and is_call(d[2][1], '::next') and d[3] == 0]
+        if not ends:
+            continue            # left through the error arm
+        k_e = ends[-1][0]
+        emp = [d for d in p.decisions if d[0] > k_e and any(is_call(x, '::is_empty') or is_call(x, '::len') for x in walk(d[2]))]
+        sends = [c for c in path_calls(p, expand=False) if c[0] > k_e and isinstance(c[2], str) and c[2].endswith('::send')]
+        n += 1
+        if emp:
+            e, o = emp[-1][2], emp[-1][3]
+            neg = False
+            while e[0] == 'un' and e[1] == 'Not':
+                e, neg = e[2], not neg
+            if is_call(e, '::is_empty'):
+                nonempty = (bool(o) != neg) is False
+                ctx.check(R, bool(sends) == nonempty, 'remainder', 'when the input ends the batcher %s its remaining batch on the path where that batch is %s: the last (partial) batch of every build is lost' % (
+                    'sends' if sends else 'does not send', 'non-empty' if nonempty else 'empty'), fn=f)
+            else:
+                ctx.undecided(R, 'remainder', 'the test guarding the final send is not `is_empty()`', fn=f)
+        else:
+            ctx.check(R, bool(sends), 'remainder', 'when the input ends the batcher does not send the batch it has been filling', fn=f)
+    if n == 0:
+        ctx.undecided(R, 'remainder', 'no path on which the input ends was recognised', fn=f)
+
+
+def _stores_of(f, p):
+    out = []
+    for (k, i, loc, st) in p.stores():
+        out.append((k, loc, p.sym.rvalue_at(st['rv'], (k, i))))
+    return out
+
+
+def r19_9(ctx):
+    """wiring of the merge pipeline (fst-bin has no tests of its own, so each of these is visible only here): the chosen merger reaches
+    both phases, batches are sorted and their builders finished, full batches and worker results are sent, the last FST becomes the
+    output, and --max / --min select max / min"""
+    R = ctx.rule('R19.9', 'pipeline wiring: merger stored and handed to both phases; batches sorted, builders finished; batches / results sent; final result copied to the output; --max/--min select max/min', floor=12)
+    b = ctx.bin
+    # (a) the setter stores its argument
+    f = b.fn('merge::Merger::<I>::value_merger')
+    if f is None:
+        ctx.missing(R, 'anchor:value_merger', 'merger setter not found')
+    else:
+        ok = False
+        for p in explore(f, max_visits=1, havoc=True):
+            if p.end == 'return':
+                ok = any(loc[:2] == (1, 'value_merger') and v[0] == 'agg' and v[1].endswith('Option::Some') and any(x == ('param', f.local_name(2), 2) for x in walk(v)) for k, loc, v in _stores_of(f, p)) or \
+                    any(x[0] == 'agg' and dict(x[2]).get('value_merger', ('?',))[0] == 'agg' and any(y == ('param', f.local_name(2), 2) for y in walk(dict(x[2])['value_merger'])) for x in walk(p.ret()) if x[0] == 'agg' and x[1].startswith('merge::Merger'))
+        ctx.check(R, ok, 'setter:value_merger', 'Merger::value_merger must store the given function as the merger (Some(f)): otherwise equal keys are resolved by whichever batch comes last', fn=f)
+    # (b) both phases get self.value_merger; items of the batchers become the batches' contents
+    mg = b.fn(MERGE)
+    if mg is None:
+        ctx.missing(R, 'anchor:merge', 'merge routine not found')
+    else:
+        seen = {}
+        finals = []
+        for p in explore(mg, max_visits=1, havoc=True, limit=4000):
+            for (k, bid, callee, args, t) in path_calls(p, expand=False):
+                if isinstance(callee, str) and callee.endswith('::create_fst') and len(args) == 2 and args[1][0] == 'agg':
+                    fd = dict(args[1][2])
+                    kind = args[1][1].rsplit('::', 1)[-1]
+                    vm = fd.get('value_merger')
+                    okm = vm is not None and any((x[0] == 'field' and x[2] == 'value_merger') or (x[0] in ('havoc', 'phi') and isinstance(x[1], tuple) and 'value_merger' in x[1]) for x in walk(vm))
+                    payload = fd.get('kvs') or fd.get('fsts')
+                    okp = payload is not None and any(is_call(x, '::next') for x in walk(payload))
+                    seen[kind] = (okm, okp)
+            if p.end == 'return' and ret_kind(p.ret()) == 'ok':
+                cs = path_calls(p, expand=False)
+                copies = [c for c in cs if isinstance(c[2], str) and (c[2].endswith('fs::copy') or c[2].endswith('fs::rename'))]
+                creates = [c for c in cs if isinstance(c[2], str) and c[2].endswith('fs::File::create')]
+                fin = [c for c in cs if isinstance(c[2], str) and c[2].endswith('::finish')]
+
+                def out_arg(c, i):
+                    return any((x[0] == 'field' and x[2] == 'output') or (x[0] in ('havoc', 'phi') and isinstance(x[1], tuple) and 'output' in x[1]) for x in walk(c[3][i]))
+                finals.append(any(len(c[3]) == 2 and out_arg(c, 1) and any(is_call(x, '::pop') or is_call(x, '::remove') or is_call(x, '::into_iter') or x[0] == 'index' for x in walk(c[3][0])) for c in copies) or
+                              (any(out_arg(c, 0) for c in creates) and bool(fin)))
+        for kind in ('KvBatch', 'UnionBatch'):
+            if kind in seen:
+                ctx.check(R, seen[kind][0], 'merger-reaches:' + kind, 'the %s phase is not given the merger the user selected (self.value_merger): equal keys are resolved differently in the two phases' % kind, fn=mg)
+                ctx.check(R, seen[kind][1], 'payload:' + kind, 'the %s is not filled with the batch the batcher just produced' % kind, fn=mg)
+            else:
+                ctx.undecided(R, 'merger-reaches:' + kind, 'construction of %s in the merge routine not recognised' % kind, fn=mg)
+        if finals:
+            ctx.check(R, all(finals), 'final-output', 'a successful return of merge() neither copies the last remaining FST to the requested output nor writes an empty FST there: the command succeeds without producing its result', fn=mg)
+        else:
+            ctx.undecided(R, 'final-output', 'no successful path of merge() recognised', fn=mg)
+    # (c) first-phase batches are sorted before insertion; every temp builder is finished on success
+    for name, need_sort in ((KV, True), (UN, False)):
+        g = b.fn(name)
+        if g is None:
+            continue
+        for p in explore(g, max_visits=1, havoc=True, limit=2000):
+            if p.end != 'return' or ret_kind(p.ret()) != 'ok':
+                continue
+            cs = path_calls(p)
+            fin = [c for c in cs if isinstance(c[2], str) and (c[2].endswith('Builder::<W>::finish') or c[2].endswith('Builder::<W>::into_inner'))]
+            ctx.check(R, bool(fin), 'finished:' + name, 'a batch FST is reported as written on a path that never finishes its builder: the file has no footer and cannot be opened by the next phase', fn=g)
+            if need_sort:
+                srt = [c for c in cs if isinstance(c[2], str) and c[2].rsplit('::', 1)[-1] in ('sort', 'sort_unstable', 'sort_by', 'sort_unstable_by', 'sort_by_key')]
+                ins = [c for c in cs if isinstance(c[2], str) and c[2].endswith('Builder::<W>::insert')]
+                ctx.check(R, bool(srt) and (not ins or srt[0][0] < ins[0][0]), 'sorted:' + name, 'the rows of a batch are inserted without having been sorted first: the build fails with OutOfOrder (or, for input that happens to be sorted per batch, depends on the batch size)', fn=g)
+            break
+    # (d) what is collected is sent on
+    for f in b.fn_list:
+        if f.kind == 'Closure' and f.path.startswith('merge::Sorters') and '::new::' in f.path and f.path.count('{closure') == 1:
+            oks = []
+            for p in explore(f, max_visits=1, havoc=True, limit=500):
+                if p.end == 'return':
+                    oks.append(any(isinstance(c[2], str) and c[2].endswith('::send') for c in path_calls(p, expand=False)))
+            ctx.check(R, bool(oks) and all(oks), 'worker-sends', 'a worker thread ends without sending the results it collected: the main thread sees no results and writes an EMPTY output', fn=f)
+        if f.kind == 'Closure' and f.path.startswith('merge::batcher::'):
+            bad = False
+            n_full = 0
+            for p in explore(f, max_visits=1, havoc=True, limit=3000):
+                if p.end != 'cut':
+                    continue
+                full = [d for d in p.decisions if d[2][0] == 'bin' and d[2][1] in ('Ge', 'Gt', 'Lt', 'Le', 'Eq') and any(is_call(x, '::len') for x in walk(d[2]))]
+                if not full:
+                    continue
+                # the iteration that replaces the batch by a fresh one must have sent the old one
+                k_nx = max([c[0] for c in path_calls(p, expand=False) if isinstance(c[2], str) and c[2].endswith('::next')] or [-1])
+                fresh = [c for c in path_calls(p, expand=False) if c[0] > k_nx and isinstance(c[2], str) and (c[2].endswith('::with_capacity') or c[2].endswith('Vec::<T>::new'))]
+                snd = [c for c in path_calls(p, expand=False) if isinstance(c[2], str) and c[2].endswith('::send')]
+                if fresh:
+                    n_full += 1
+                    if not snd:          # (before or after: `mem::replace(&mut batch, fresh)` moves the full batch out first)
+                        bad = True
+            if n_full:
+                ctx.check(R, not bad, 'batch-sent', 'a full batch is replaced by a fresh one without having been sent: its rows are lost', fn=f)
+    sc = b.fn('merge::Sorters::<B>::create_fst')
+    if sc is not None:
+        from rules import cli
+        ctx.check(R, not cli.params_handed_on(sc), 'dispatch', 'Sorters::create_fst does not hand the batch to a worker', fn=sc)
+    # (e) --max / --min select max / min, the default is +
+    ru = b.fn('cmd::map::Args::run_unsorted')
+    if ru is not None:
+        table = {}
+        for p in explore(ru, max_visits=1, havoc=True, limit=4000):
+            flags = {}
+            for d in p.decisions:
+                e = d[2]
+                if e[0] == 'field' and e[2] in ('max', 'min') and d[3] in (0, 1):
+                    flags[e[2]] = d[3]
+            for (k, bid, callee, args, t) in path_calls(p):
+                if isinstance(callee, str) and callee.endswith('::value_merger') and callee.startswith('merge::'):
+                    for a in args[1:]:
+                        for fm in merger_forms(b, a):
+                            table.setdefault((flags.get('max'), flags.get('min')), set()).add(fm)
+        want = {(1, None): {'max'}, (1, 0): {'max'}, (1, 1): {'max'}, (0, 1): {'min'}, (0, 0): {'+'}}
+        if table:
+            wrong = {k: v for k, v in table.items() if k in want and v != want[k]}
+            ctx.check(R, not wrong, 'flag-wiring', '--max must select max, --min min, neither the sum: %s' % {str(k): sorted(v) for k, v in wrong.items()}, fn=ru)
+        else:
+            ctx.undecided(R, 'flag-wiring', 'merger selection in the map command not recognised', fn=ru)
+
+
 def run(ctx):
     if ctx.bin is None:
         ctx.missing('R19.1', 'anchor:bin', 'fst-bin facts missing')
@@ -501,3 +688,6 @@ def run(ctx):
     ctx.step(r19_4, ctx)
     ctx.step(r19_5, ctx)
     ctx.step(r19_6, ctx)
+    ctx.step(r19_7, ctx)
+    ctx.step(r19_8, ctx)
+    ctx.step(r19_9, ctx)
